@@ -240,6 +240,11 @@ func (w *c18world) resolve(doc *jmut.Node) (kind, where, detail string) {
 					applying = w.regimeFor(cc) // may be nil: no regime applies to that country
 				}
 				if applying == nil {
+					// no regime applies to this combo, so a rate key cannot belong to one
+					if rate := str(cb, "rate"); rate != "" {
+						rk, rw, rd = "rate", p.Class(), fmt.Sprintf("rate key %q on a combo of country %s, which has no published regime", rate, str(cb, "country"))
+						return
+					}
 					continue
 				}
 				cat := applying.CategoryDef(str(cb, "cat"))
@@ -406,6 +411,22 @@ func (w *c18world) variants(doc *jmut.Node, rngPick func(n int) int, full bool) 
 					emit("country-override", fmt.Sprintf("%s[0] country=%s cat=%s", p.String(), cc, cat), d)
 				}
 			}
+			// … keeping or setting a rate key, which then has to resolve in the regime of that country
+			for _, cc := range []string{"PT", "FR", "JP", "SE", "ZZ", "GR"} {
+				for _, rate := range []string{"", "standard", "super-reduced", "general", "zz-undefined"} {
+					d := doc.Clone()
+					cb := d.At(p).A[0]
+					if rate == "" && cb.Get("rate") == nil {
+						continue
+					}
+					cb.Set("country", jmut.S(cc))
+					if rate != "" {
+						cb.Set("rate", jmut.S(rate))
+						cb.Del("percent")
+					}
+					emit("country-override", fmt.Sprintf("%s[0] country=%s rate=%s", p.String(), cc, rate), d)
+				}
+			}
 		}
 	})
 	return out
@@ -413,7 +434,7 @@ func (w *c18world) variants(doc *jmut.Node, rngPick func(n int) int, full bool) 
 
 func runC18(c *Ctx) {
 	c.R.Rule("for every corpus document and every reference position in it ($regime, $addons, $tags, currencies, countries, tax combo categories and rate keys, extension keys and values at any depth, country-override combos): replacement by every other value defined anywhere for that kind (quick: sampled for currencies, countries and extension keys) and by undefined-but-well-formed and malformed values; each variant is calculated and validated by the library; non-trivial = the variant was accepted, so the resolver ran on the validated document; distinct by (file, position, value)")
-	c.R.Assume("resolver works from data/regimes, data/addons, data/catalogues and the published code lists in data/schemas (currency/code, l10n/*) only; rate keys resolve exactly or through a '+' component (the library's documented key rule); a combo with a country override that has no published regime is not constrained; an extension without values or pattern accepts any value")
+	c.R.Assume("resolver works from data/regimes, data/addons, data/catalogues and the published code lists in data/schemas (currency/code, l10n/*) only; rate keys resolve exactly or through a '+' component (the library's documented key rule); a combo with a country override that has no published regime is not constrained in its category but cannot carry a rate key; an extension without values or pattern accepts any value")
 	w := getC18World()
 	items := corpus.Golden()
 	type job struct {
